@@ -240,7 +240,7 @@ func (s *Seq) Clone() *Seq {
 		}
 	}
 
-	return &Seq{literals: cloned}
+	return &Seq{literals: cloned, partialCoverage: s.partialCoverage}
 }
 
 // Minimize removes redundant literals from the sequence.
